@@ -68,6 +68,9 @@ MUTANTS = {
                               "    def __init__(self, threads_pids={}, pids_names={}):\n        self.threads_pids = threads_pids\n        self.pids_names = pids_names", ['C02']),
     'idx_on_object': (P + 'kd_buf_parser.py', "                log_strings = {v: k for k, v in plistlib.loads(block.data)['StringIndex'].items()}\n\n        for event in log_events:\n            log_event = OsLogEvent.from_raw_log_event(event, log_strings)",
                       "                log_strings = {v: k for k, v in plistlib.loads(block.data)['StringIndex'].items()}\n        self._ls = log_strings\n\n        for event in log_events:\n            log_event = OsLogEvent.from_raw_log_event(event, self._ls)", ['C03']),
+    'tp_shared_windows': (P + 'traces_parser.py', "        self.on_going_events = {}\n", "        self.on_going_events = globals().setdefault('_SHARED_EVENTS', {})      # shared between parser objects\n", ['C04', 'C05']),
+    'tp_shared_last_data': (P + 'traces_parser.py', "        self.last_data_newthread = {}\n", "        self.last_data_newthread = globals().setdefault('_SHARED_NT', {})\n", ['C05', 'C14']),
+    'pk_class_level_tables': (P + 'pykdebugparser.py', "        self.threads_pids = {}\n        self.pids_names = {}\n", "        self.threads_pids = globals().setdefault('_TP', {})\n        self.pids_names = globals().setdefault('_PN', {})\n", ['C14', 'C13']),
     'traces_materialised_sorted': (P + 'pykdebugparser.py', "        trace_generator = traces_parser.feed_generator(self._kevents(kdebug, None, filter_class))\n", "        trace_generator = iter(traces_parser.feed_generator(sorted(self._kevents(kdebug, None, filter_class), key=lambda e: e.timestamp)))\n", []),
     'count_off_by_one': (P + '__main__.py', "        if i == count:\n            break\n        print(obj)", "        print(obj)\n        if i == count:\n            break", ['C06']),
     'cs_end_timestamp': (P + 'callstacks_parser.py', "yield Callstack(trace.ktraces[0].timestamp, trace.ktraces[0].tid, frames)", "yield Callstack(trace.ktraces[-1].timestamp, trace.ktraces[0].tid, frames)", ['C15']),
